@@ -516,7 +516,7 @@ func (w *World) prelude() string {
 		b.WriteString(d)
 		b.WriteString("\n")
 	}
-	b.WriteString("(assert (forall ((s Str)) (>= (strlen s) 0)))\n")
+	b.WriteString(";;AXIOMS\n(assert (forall ((s Str)) (>= (strlen s) 0)))\n")
 	if len(w.strOrder) > 1 {
 		b.WriteString("(assert (distinct")
 		for _, s := range w.strOrder {
